@@ -50,7 +50,7 @@ func (c *c05Case) query(expanded bool) string {
 		}
 		s := e.RenderStyle(ref.Style{Full: true})
 		if f.As != "" {
-			s += " as " + f.As
+			s += " as " + ref.QuoteName(f.As)
 		}
 		fs = append(fs, s)
 	}
@@ -291,9 +291,60 @@ func c05Units(t core.Tier) []c05Unit {
 	return us
 }
 
-func (c05) Units(t core.Tier) int { return len(c05Units(t)) }
+func (c05) Units(t core.Tier) int { return len(c05Units(t)) + 1 }
+
+// c05Clash: two aliases whose names, glued to the first key of a chunk, can
+// read the same ("a" + "bk1" = "ab" + "k1"; "a" - "b-k1" = "a-b" - "k1"): a
+// per-chunk cache keyed by such a text must still keep them apart.
+func c05Clash(r *core.Reporter) {
+	iv := func() *ref.Expr { return ref.Call("int", ref.Value()) }
+	for _, pr := range [][2]string{{"a", "ab"}, {"n", "n1"}, {"a", "a-b"}, {"x", "x-"}, {"k", "k-k"}, {"a", "a_"}} {
+		short, long := pr[0], pr[1]
+		diffs := []string{long[len(short):]}
+		if strings.HasPrefix(long, short+"-") {
+			diffs = append(diffs, long[len(short)+1:]+"-")
+		}
+		for _, d := range diffs {
+			ps := []store.Pair{{K: d + "k1", V: "5"}, {K: d + "k2", V: "-1"}, {K: "k1", V: "7"}, {K: "k2", V: "8"}}
+			for _, fields := range [][]c05Field{
+				{{ref.Key(), ""}, {iv(), short}, {ref.Bin("*", iv(), ref.N(10)), long}},
+				{{ref.Key(), ""}, {ref.Bin("*", iv(), ref.N(10)), long}, {iv(), short}},
+			} {
+				for _, w := range []*ref.Expr{
+					ref.Bin("&", ref.Bin(">", ref.Name(short), ref.N(0)), ref.Bin(">", ref.Name(long), ref.N(10))),
+					ref.Bin("&", ref.Bin(">", ref.Name(long), ref.N(10)), ref.Bin(">", ref.Name(short), ref.N(0))),
+					ref.Bin("&", ref.Bin(">=", ref.Name(short), ref.N(0)), ref.Bin(">=", ref.Name(long), ref.N(0))),
+				} {
+					for _, cfg := range []struct {
+						mode string
+						b    int
+					}{{drv.Row, 32}, {drv.Batch, 1}, {drv.Batch, 2}, {drv.Batch, 3}, {drv.Batch, 32}} {
+						c := c05Case{Fields: fields, Where: w, Store: ps, Mode: cfg.mode, B: cfg.b}
+						if !r.Begin(func() *core.Failure {
+							return &core.Failure{Property: "C05", Leg: "alias", Case: c.text(), Data: core.MustJSON(c)}
+						}) {
+							continue
+						}
+						fs, nontrivial, status, obs, evals := c05Judge(&c)
+						r.Evals(evals)
+						for _, f := range fs {
+							status = "violation:" + f.Sig
+							r.Fail(f)
+						}
+						r.Case(c.text(), nontrivial, status)
+						r.Observed(obs)
+					}
+				}
+			}
+		}
+	}
+}
 
 func (c05) RunUnit(t core.Tier, u int, r *core.Reporter) {
+	if u == len(c05Units(t)) {
+		c05Clash(r)
+		return
+	}
 	un := c05Units(t)[u]
 	a := c05Aliases()[un.alias]
 	shapes := c05Shapes(un.alias, a)
